@@ -220,3 +220,15 @@ Proof.
   - eapply Permutation_NoDup; [|exact Hn]. apply Permutation_sym. apply Permutation_map. now apply reorder_perm.
 Qed.
 Print Assumptions C11_gen_growth_inputs.
+
+(* ---- callbacks created in loops over the phases (regenerated binding of the phase index) --------------------- *)
+(* the aspect-ratio callback installed for the phase at position p reads that phase's table, wherever it is listed *)
+Theorem C11_gen_phase_callbacks {P T : Type} (table : P -> T) (ps : list P) (d : P) (p : nat) (idx : list nat) (i : nat) :
+  gen_setupAspectRatio_closure_1 table ps d p = [table (nth p ps d)] /\
+  (i < length idx ->
+   gen_setupAspectRatio_closure_1 table (reorder d ps idx) d i = gen_setupAspectRatio_closure_1 table ps d (nth i idx 0)).
+Proof.
+  split; [reflexivity|]. intros Hi.
+  unfold gen_setupAspectRatio_closure_1. now rewrite (callback_early_reorder table ps d idx i Hi).
+Qed.
+Print Assumptions C11_gen_phase_callbacks.
